@@ -10,7 +10,7 @@ from penman.tree import Tree
 
 from pv.gen import trees
 from pv.gen.base import pick
-from pv.harness import Hyp, tmpdir
+from pv.harness import Enum, Hyp, tmpdir
 from pv.props.common import short
 from pv.ref import cli, graphm, interp
 from pv.ref.role import build_model, build_table, roles_for
@@ -362,5 +362,18 @@ def _cases(draw):
             'subprocess': draw(st.integers(0, 49)) == 0}
 
 
+def _long_chunks(tier):
+    return [{'n': n, 'o': o} for n in (65, 130, 300) for o in range(3)]
+
+
+def _long_cases(ch):
+    g = [{'tree': ['a', [['/', 'alpha'], [':mod', 'x'], [':ARG0', ['b', [['/', 'beta']]]], [':polarity', '-']]], 'meta': {'id': 'x'}},
+         {'tree': ['c', [['/', 'chase-01'], [':ARG1', ['m', [['/', 'mouse']]]], [':ARG0', ['c2', [['/', 'cat']]]]]], 'meta': {}}]
+    opts = [{}, {'rearr': ['attributes-first', 'canonical'], 'mv': '{prefix}{j}'}, {'re': True, 'ra': True, 'canon': True, 'indent': 'no'}][ch['o']]
+    yield {'sources': [[g[i % 2] for i in range(ch['n'])]], 'model': {'name': 'amr'}, 'opts': opts, 'stdin': ch['o'] == 0,
+           'in_indent': -1, 'alt_indent': 'no', 'subprocess': False}
+
+
 def stages(tier):
-    return [Hyp('option-sets', _cases, 2000, 80000)]
+    return [Hyp('option-sets', _cases, 2000, 80000),
+            Enum('long-streams', _long_chunks, _long_cases, 'one source with 65 / 130 / 300 graphs under three option sets')]
